@@ -143,13 +143,25 @@ def run_case(case, ctx):
         seq = ["solve_left", "solve_right", "closure_scc_based", "closure", "solve_right", "solve_left", "blocks"]
         hr.shuffle(seq)
         ctx.shape["shared-object-sequences"] += 1
+        # a second right-hand side, so that consecutive solver calls on the same graph differ
+        b2 = [zero] * n
+        b2[hr.randrange(n)] = one
+        left2 = [sum((b2[i] * C[i][j] for i in range(n)), zero) for j in range(n)]
+        right2 = [sum((C[i][j] * b2[j] for j in range(n)), zero) for i in range(n)]
+        bl2 = Rcls.chart()
+        for i in range(n):
+            if b2[i] != zero:
+                bl2[names[i]] = Rcls.one
+        kept = []
         for step, name in enumerate(seq):
             c2 = dict(case, sequence=seq, step=step)
             if name in ("solve_left", "solve_right"):
                 api = APIS[2] if name == "solve_left" else APIS[3]
-                want = left if name == "solve_left" else right
-                ok, sol = ctx.call(api, c2, getattr(H, name), bl)
+                use2 = step % 2 == 1
+                want = (left2 if use2 else left) if name == "solve_left" else (right2 if use2 else right)
+                ok, sol = ctx.call(api, c2, getattr(H, name), bl2 if use2 else bl)
                 if ok:
+                    kept.append((api, name, step, sol, want))
                     for i in range(n):
                         ctx.check(api, same(sol[names[i]], want[i]), f"{name}/entry/after-other-calls-on-the-same-graph", dict(c2, i=i),
                                   {"i": names[i], "have": sol[names[i]], "want": lib.want_value(R, want[i]), "sequence": seq[: step + 1]})
@@ -172,6 +184,11 @@ def run_case(case, ctx):
                                   {"blocks": [sorted(x) for x in bs], "backward_edges": bad[:5], "sequence": seq[: step + 1]})
                     except ValueError as e:
                         ctx.violated(APIS[4], "blocks/unknown-node", c2, {"error": repr(e)})
+        # solutions returned earlier must still be what they were (they belong to the caller)
+        for api, name, step, sol, want in kept:
+            for i in range(n):
+                ctx.check(api, same(sol[names[i]], want[i]), f"{name}/returned-solution-changed-by-later-call", dict(case, sequence=seq, step=step, i=i),
+                          {"i": names[i], "now": sol[names[i]], "was": lib.want_value(R, want[i])})
     # SCC decomposition
     ok, blocks = ctx.call(APIS[4], case, lambda: mkgraph().blocks)
     if ok:
